@@ -67,6 +67,9 @@ def pinnedSdefKeys : List String :=
   ["cel", "sur", "erg", "tme", "dir", "vec", "nrm", "pos", "rad", "ext", "axs", "x", "y", "z", "ccc", "ara",
    "wgt", "tr", "eff", "par"]
 
+/-- mnemonics and keywords compare case-insensitively (ASCII) -/
+def lowerAscii (s : String) : String := String.ofList (s.toList.map Char.toLower)
+
 /-- allowed constant counts of a mnemonic (lower case); `[]` for a word that is no mnemonic of G -/
 def arities (m : String) : List Nat :=
   match pinnedSurfaceArities.find? (·.1 == m) with
@@ -375,7 +378,7 @@ structure SurfaceCard where
 namespace SurfaceCard
 def WF (s : SurfaceCard) : Bool :=
   s.lead.ok && s.g0.req && s.g1.req && (match s.pointer with | some (_, g) => g.req | none => true) &&
-  s.constants.WF && !s.constants.isEmpty && pinnedSurfaceTypes.contains s.mnemonic.toLower
+  s.constants.WF && !s.constants.isEmpty && pinnedSurfaceTypes.contains (lowerAscii s.mnemonic)
 def render (s : SurfaceCard) : List String :=
   [(if s.star then "*" else "") ++ s.number] ++ (match s.pointer with | some (p, _) => [p] | none => []) ++
     [s.mnemonic] ++ s.constants.render
